@@ -17,14 +17,13 @@ import OpmVerif.Model.Scan
 namespace OpmVerif.DeckWrite
 open OpmVerif.Lex OpmVerif.Tok OpmVerif.Scan
 
-/-- decimal digits of a natural number, most significant first (`os << n`). -/
-def natDigitsAux : Nat → Nat → Bytes → Bytes
-  | 0, _, acc => acc
-  | fuel + 1, n, acc =>
-    let acc' := UInt8.ofNat (48 + n % 10) :: acc
-    if n / 10 = 0 then acc' else natDigitsAux fuel (n / 10) acc'
+/-- decimal digits of a natural number, least significant first. -/
+def revDigits : Nat → Nat → Bytes
+  | 0, _ => []
+  | fuel + 1, n => UInt8.ofNat (48 + n % 10) :: (if n / 10 = 0 then [] else revDigits fuel (n / 10))
 
-def natDigits (n : Nat) : Bytes := natDigitsAux (n + 1) n []
+/-- `os << n`: decimal digits, most significant first. -/
+def natDigits (n : Nat) : Bytes := (revDigits (n + 1) n).reverse
 
 /-- `os << int`. -/
 def printInt (i : Int) : Bytes :=
